@@ -231,7 +231,23 @@ fn arc_atomic<const N: usize, const M: usize>(case: &Case) -> Vec<i64> {
     let chan2 = chan.clone();
     run_generic_v(case, chan, locs, M, Some(Box::new(move || chan2.verif_parts().0.verif_vacant_count())))
 }
-fn arc_full_sync<const N: usize, const M: usize>(case: &Case) -> Vec<i64> { run_generic(case, ChannelMultiArcFullSync::<u32, N, M>::new("c"), LocMap::new(), M) }
+fn arc_full_sync<const N: usize, const M: usize>(case: &Case) -> Vec<i64> {
+    let chan = ChannelMultiArcFullSync::<u32, N, M>::new("c");
+    let mut locs = LocMap::new();
+    {
+        let (sm, rings) = chan.verif_parts();
+        sm_locs(sm, &mut locs);
+        for (i, ring) in rings.iter().enumerate() {
+            let (addrs, slot_size) = ring.verif_addrs();
+            let base = 1000 * (i as i64 + 1);
+            locs.cell(addrs[0], base); locs.cell(addrs[1], base + 1); locs.cell(addrs[2], base + 4);
+            locs.array(addrs[3], slot_size, N, base + 100);
+        }
+        locs.cell(2, 2);
+    }
+    let chan2 = chan.clone();
+    run_generic_v(case, chan, locs, M, Some(Box::new(move || chan2.verif_parts().0.verif_vacant_count())))
+}
 fn arc_crossbeam<const N: usize, const M: usize>(case: &Case) -> Vec<i64> { run_generic(case, ChannelMultiArcCrossbeam::<u32, N, M>::new("c"), LocMap::new(), M) }
 fn ogre_arc_atomic<const N: usize, const M: usize>(case: &Case) -> Vec<i64> { run_generic(case, ChannelMultiOgreArcAtomic::<u32, N, M>::new("c"), LocMap::new(), M) }
 fn ogre_arc_full_sync<const N: usize, const M: usize>(case: &Case) -> Vec<i64> { run_generic(case, ChannelMultiOgreArcFullSync::<u32, N, M>::new("c"), LocMap::new(), M) }
